@@ -15,7 +15,8 @@ RULE = ("Statements of Hypothesis-generated builder programs (every kind; guards
         "reads <= declared reads + writes + loop counters, assigned names <= declared writes + loop counters. "
         "Additionally every statement gets a hand-written-style variant whose guard is the inlined comparison instead "
         "of the builder's flag (guard evaluation recorded), and map_expressions with two identity mappers must leave "
-        "sets and fields unchanged. Non-trivial = the statement read a variable outside its right-hand side or is not "
+        "sets and fields unchanged. A second generator puts NumPy object arrays of expressions (which dagrt accepts as expressions) "
+        "on right-hand sides, in call arguments and in yields. Non-trivial = the statement read a variable outside its right-hand side or is not "
         "a plain Assign; distinct by (statement text, guard).")
 ASSUMPTIONS = ["observation through a dict subclass handed to the interpreter and its evaluation mapper (no hooks in /repo)",
                "loop counters are exempt, as the property says"]
@@ -235,10 +236,120 @@ def sig_of(msg):
 
 
 def replay(sub, case):
+    if sub == "container":
+        return check_container(case)[0]
     return check_case(case)[0]
 
 
+# ---------------------------------------------------------------- expression containers
+# dagrt accepts NumPy object arrays of expressions wherever an expression is expected (the Python
+# printer has map_numpy_array; multi-component right-hand sides are written that way); the variables
+# inside are read like any others.
+
+CONTAINER_VARS = ["x", "y", "z", "<state>r", "<p>s", "<dt>", "<t>"]
+CONTAINER_PLACES = ["rhs", "rhs_scaled", "rhs_subscripted", "call_arg", "call_kwarg", "yield_expr", "nested"]
+
+
+def container_cases():
+    from vlib.exprgen import typed_exprs
+    num, _ = typed_exprs(num_vars=CONTAINER_VARS, funcs=["<func>g"], agg_vars=["arr"], floats=False,
+                         with_if=False, with_pow=False, with_quot=False, with_sub=False)
+    elems = st.lists(st.integers(0, 2).flatmap(num), min_size=1, max_size=3)
+    return st.fixed_dictionaries({"elements": elems, "place": st.sampled_from(CONTAINER_PLACES),
+                                  "guarded": st.booleans()})
+
+
+def check_container(case):
+    import numpy as np
+    import dagrt.language as lang
+    from pymbolic import var
+    from pymbolic.primitives import Comparison
+    info = {}
+    exprs = [T.to_pymbolic(e) for e in case["elements"]]
+    arr = np.empty(len(exprs), dtype=object)
+    for i, e in enumerate(exprs):
+        arr[i] = e
+    inside = set()
+    for e in case["elements"]:
+        inside |= T.variables(e)
+    cond = Comparison(var("<t>"), "<", 100) if case["guarded"] else True
+    place = case["place"]
+    if place == "rhs":
+        stmt = lang.Assign(id="s", assignee="out", assignee_subscript=(), expression=arr, condition=cond, depends_on=[])
+    elif place == "rhs_scaled":
+        stmt = lang.Assign(id="s", assignee="out", assignee_subscript=(), expression=var("<dt>") * arr, condition=cond,
+                           depends_on=[])
+        inside.add("<dt>")
+    elif place == "rhs_subscripted":
+        # out[i] <- element of the container selected by a constant index: the whole container is still evaluated
+        stmt = lang.Assign(id="s", assignee="out2", assignee_subscript=(0,), expression=exprs[0], condition=cond,
+                           depends_on=[])
+        inside = T.variables(case["elements"][0]) | {"out2"}
+    elif place == "call_arg":
+        stmt = lang.AssignFunctionCall(id="s", assignees=("out",), function_id="<func>anyf", parameters=(arr,),
+                                       condition=cond, depends_on=[])
+    elif place == "call_kwarg":
+        stmt = lang.AssignFunctionCall(id="s", assignees=("out",), function_id="<func>anyf", parameters=(var("x"),),
+                                       kw_parameters={"v": arr}, condition=cond, depends_on=[])
+        inside.add("x")
+    elif place == "yield_expr":
+        stmt = lang.YieldState(id="s", time=var("<t>"), time_id="final", expression=arr, component_id="y",
+                               condition=cond, depends_on=[])
+        inside.add("<t>")
+    else:
+        outer = np.empty(2, dtype=object)
+        outer[0] = var("y") + 1
+        outer[1] = exprs[0] * 2
+        stmt = lang.Assign(id="s", assignee="out", assignee_subscript=(), expression=outer, condition=cond, depends_on=[])
+        inside = T.variables(case["elements"][0]) | {"y"}
+    if case["guarded"]:
+        inside.add("<t>")
+    phase = lang.ExecutionPhase(name="main", next_phase="main", statements=[stmt])
+    dag = lang.DAGCode({"main": phase}, "main")
+    problems = []
+
+    def on_statement(interp, st_, reads, writes, executed):
+        info["executed"] = executed
+        R, W = set(st_.get_read_variables()), set(st_.get_written_variables())
+        info["reads"] = sorted(reads)
+        if reads - R - W:
+            problems.append("%s '%s' reads %s, declared reads %s writes %s" % (
+                type(st_).__name__, st_, sorted(reads - R - W), sorted(R), sorted(W)))
+        if writes - W:
+            problems.append("%s '%s' assigns %s, declared writes %s" % (type(st_).__name__, st_, sorted(writes - W), sorted(W)))
+
+    fm = dict(make_python_functions())
+    fm["<func>anyf"] = lambda *a, **k: 1.0
+    fm["<func>g"] = lambda *a, **k: 1.5          # generated calls have arbitrary signatures
+    interp = make_recorder(dag, fm, on_statement)
+    ctx0 = {"x": 2.0, "y": 3.0, "z": -1.0, "<state>r": 0.5, "<p>s": 4.0, "arr": np.array([1.0, 2.0, 3.0]),
+            "out2": np.zeros(2)}
+    interp.set_up(t_start=0.0, dt_start=0.5, context={"r": 0.5})
+    for k, v in ctx0.items():
+        dict.__setitem__(interp.context, k, v)
+    interp._cur_phase = "main"
+    try:
+        for _ in interp.run_single_step():
+            pass
+    except Exception as e:
+        info["exec_error"] = "%s: %s" % (type(e).__name__, str(e)[:80])
+    return ("\n".join(sorted(set(problems))) if problems else None), info
+
+
+def container_shard(ctx, n):
+    def body(case):
+        msg, info = check_container(case)
+        classes = ["container_" + case["place"]] + (["container_interpreter_error"] if "exec_error" in info else [])
+        ctx.note(case, bool(info.get("reads")) and "exec_error" not in info, classes)
+        if msg is not None:
+            ctx.fail("container", case, msg, sig="container " + case["place"] + " " + sig_of(msg))
+
+    hyp_explore(ctx, container_cases(), body, n, "container")
+
+
 def shrink(sub, case):
+    if sub == "container":
+        return case
     from checks.c01 import shrink_method_case
     return shrink_method_case(case, lambda c: replay(sub, c), sig_of)
 
@@ -281,5 +392,7 @@ def shard(ctx, n):
 def run(ctx):
     if ctx.quick:
         ctx.parallel(shard, 16, 100)
+        ctx.parallel(container_shard, 4, 150)
     else:
         ctx.parallel(shard, 16, 5000)
+        ctx.parallel(container_shard, 16, 3000)
